@@ -19,6 +19,7 @@ type HistKnobs struct {
 	NoGoodLogon bool // C07: never an acceptable Logon
 	EarlyLogon  int  // percent of histories that start with an acceptable Logon
 	Local       bool // local sends / logouts interleaved
+	LocalLogout bool // local Logout() / Stop() calls interleaved, but no local sends (C07: a Logout may go to a peer that has not logged on)
 	LongAdvance bool // allow idle stretches of minutes (only sensible while not logged on)
 	MaxSteps    int
 }
@@ -118,6 +119,8 @@ func genHistory(t *rapid.T, k HistKnobs) *Script {
 			add(rig.Step{Op: "send", ID: fmt.Sprintf("app%d", i)})
 		case kind < 91 && k.Local:
 			add(rig.Step{Op: "logout"})
+		case kind < 91 && k.LocalLogout:
+			add(rig.Step{Op: rapid.SampledFrom([]string{"logout", "logout", "stop"}).Draw(t, "localEnd")})
 		default:
 			var dt int64
 			if k.LongAdvance {
